@@ -1,0 +1,42 @@
+#ifdef LIBOCCA_OCCA_VERIF
+#ifndef OCCA_INTERNAL_VERIF_HEADER
+#define OCCA_INTERNAL_VERIF_HEADER
+
+// Verification hook (only compiled with -DLIBOCCA_OCCA_VERIF): live-object
+// counters for the backend classes, incremented in their constructors and
+// decremented in their destructors.
+namespace occa {
+  namespace verif {
+    enum liveClass {
+      clsDevice     = 0,
+      clsBuffer     = 1,
+      clsMemory     = 2,
+      clsMemoryPool = 3,
+      clsKernel     = 4,
+      clsStream     = 5,
+      clsStreamTag  = 6,
+      clsCount      = 7
+    };
+
+    // Number of constructed-and-not-yet-destroyed objects of class cls
+    long liveCount(int cls);
+    // Number of destructor runs of class cls so far
+    long destroyedCount(int cls);
+
+    void liveAdd(int cls, long delta);
+
+    // Member token for classes whose constructor has no body to add a line to
+    template <int cls>
+    class liveToken {
+     public:
+      liveToken() { liveAdd(cls, 1); }
+      ~liveToken() { liveAdd(cls, -1); }
+     private:
+      liveToken(const liveToken&);
+      liveToken& operator = (const liveToken&);
+    };
+  }
+}
+
+#endif
+#endif
